@@ -23,7 +23,7 @@ var addrShapes = []string{
 
 var locPool = []string{"", "m1", "m1/sub", "m2", "sp ace"}
 var versionPool = []string{"0.9.0", "1.0.0", "1.0.1", "1.2.0", "1.2.3", "2.0.0", "2.1.0-beta.1", "3.0.0-rc.1", "1.10.0", "1.4.0+build.7"}
-var constrPool = []string{"", "", ">= 1.0.0", "~> 1.0", "~> 1.2.0", "< 2.0.0", ">= 1.0.0, < 2.0.0", "1.2.3", "1.0.0", "2.1.0-beta.1", ">= 0.0.1", "> 1.0.0", "!= 1.2.3", "<= 1.2.0", "< 0.5.0"}
+var constrPool = []string{"", "", ">= 1.0.0", "~> 1.0", "~> 1.2.0", "< 2.0.0", ">= 1.0.0, < 2.0.0", "1.2.3", "1.0.0", "2.1.0-beta.1", ">= 0.0.1", "> 1.0.0", "!= 1.2.3", "<= 1.2.0", "< 0.5.0", "1.2.3, < 1.2.3", "2.0.0, != 2.0.0", "1.0.0, > 1.0.0"}
 
 type gknobs struct {
 	maxPkgs, maxRegs, maxAdds int
@@ -173,7 +173,7 @@ func Gen(seed uint64, profile string) *Scenario {
 	}
 	for vi := range sc.Variants {
 		if xr.Chance(1, 5) {
-			sc.Variants[vi].Tracer = simkit.Pick(xr, []string{"none", "nodiag"})
+			sc.Variants[vi].Tracer = simkit.Pick(xr, []string{"none", "nodiag", "foreign-ctx"})
 		}
 	}
 	if profile == "post" && xr.Chance(1, 2) {
@@ -229,7 +229,7 @@ func genWorld(r *simkit.RNG, sc *Scenario, k *gknobs) {
 		// a few extra files
 		for e := r.Intn(4); e > 0; e-- {
 			l := simkit.Pick(r, locs)
-			name := simkit.Pick(r, []string{"extra.txt", "README", "vars.tf", ".hidden", "data.bin", "x y.txt", "ü.tf"})
+			name := simkit.Pick(r, []string{"extra.txt", "README", "vars.tf", ".hidden", "data.bin", "x y.txt", "ü.tf", "._main.tf", "._README"})
 			pa := join(l, name)
 			if !hasPath(p.Files, pa) {
 				mode := 0o644
@@ -326,6 +326,11 @@ func genWorld(r *simkit.RNG, sc *Scenario, k *gknobs) {
 		sc.Pkgs[len(sc.Pkgs)-1].Base, sc.Pkgs[len(sc.Pkgs)-1].Query = "https://example.com/dl/mod%2Dv1.tgz", ""
 		sc.Pkgs[0].Commit, sc.Pkgs[len(sc.Pkgs)-1].Commit = "", ""
 	}
+	if ar := simkit.NewRNG(sc.Seed, "bw/archive-twins"); len(sc.Pkgs) >= 2 && ar.Chance(1, 10) {
+		// two addresses that differ only in the go-getter "archive" argument: two packages
+		sc.Pkgs[0].Base, sc.Pkgs[0].Query, sc.Pkgs[0].Commit = "https://example.com/dl/arch1.tgz", "", ""
+		sc.Pkgs[len(sc.Pkgs)-1].Base, sc.Pkgs[len(sc.Pkgs)-1].Query, sc.Pkgs[len(sc.Pkgs)-1].Commit = "https://example.com/dl/arch1.tgz", "archive=tgz", ""
+	}
 	if cr := simkit.NewRNG(sc.Seed, "bw/same-commit"); len(sc.Pkgs) >= 2 && sc.Pkgs[0].Commit != "" && cr.Chance(1, 8) {
 		// two addresses whose fetcher responses carry the same commit id (a clone and an archive
 		// of the same commit, say) although the delivered trees differ
@@ -360,6 +365,21 @@ func genWorld(r *simkit.RNG, sc *Scenario, k *gknobs) {
 			rp.Versions = append(rp.Versions, rv)
 		}
 		sc.Regs = append(sc.Regs, rp)
+	}
+	if tr := simkit.NewRNG(sc.Seed, "bw/reg-case-twins"); len(sc.Regs) >= 1 && len(sc.Regs[0].Versions) >= 1 && tr.Chance(1, 8) {
+		// a second registry package whose address differs from the first in letter case only,
+		// with a version list of its own
+		first := sc.Regs[0]
+		parts := strings.Split(first.Addr, "/")
+		parts[1] = strings.ToUpper(parts[1][:1]) + parts[1][1:]
+		tw := RegPkg{Addr: strings.Join(parts, "/")}
+		vs := append([]string{}, versionPool...)
+		simkit.Shuffle(tr, vs)
+		for _, v := range vs[:tr.Range(1, 3)] {
+			p := simkit.Pick(tr, sc.Pkgs)
+			tw.Versions = append(tw.Versions, RegVer{V: v, Source: p.Source("")})
+		}
+		sc.Regs = append(sc.Regs, tw)
 	}
 	// dependency edges
 	for pi := range sc.Pkgs {
@@ -431,6 +451,15 @@ func genWorld(r *simkit.RNG, sc *Scenario, k *gknobs) {
 			}
 		case 2: // near twin: one path differs
 			tw.Files = append(tw.Files, PFile{Path: "only-in-twin.txt", Kind: "file", Body: "T;", Mode: 0o644})
+		}
+		if dr := simkit.NewRNG(sc.Seed, "bw/twin-dirlink"); dr.Chance(1, 4) {
+			// near twin: the same regular files, and one more path - a link to one of its directories
+			for _, f := range src.Files {
+				if f.Kind == "dir" && !strings.Contains(f.Path, "/") && !hasPath(tw.Files, "dl-"+f.Path) {
+					tw.Files = append(tw.Files, PFile{Path: "dl-" + f.Path, Kind: "link", Target: f.Path})
+					break
+				}
+			}
 		}
 		if lr := simkit.NewRNG(sc.Seed, "bw/twin-link"); k.hostileTrees && lr.Chance(1, 2) {
 			// the twin delivers one file as a link to a file outside the bundle that holds the
